@@ -493,6 +493,11 @@ impl Search {
 
             self.board.unmake_move();
 
+            // The child was interrupted: its score is a dummy and must not be used or cached
+            if !self.is_running() || self.limits_exceeded(start) {
+                return 0;
+            }
+
             // Move is too good, opponent will not allow the game to reach this position
             if score >= beta {
                 #[cfg(rce_verif)]
